@@ -776,7 +776,11 @@ class Interp:
             if len(args) != 1 or kwargs:
                 self.err(n, 'network must be called on one tensor')
             x = args[0]
-            items = x.items if isinstance(x, Cat) else [x]
+            if not isinstance(x, Cat):
+                # the library always hands the network a fresh torch.cat copy of the coordinates; a direct call on the
+                # caller's own tensor is observably different for networks that pre-process their input in place
+                self.err(n, 'network called directly on a coordinate tensor (no torch.cat copy): input aliasing is not modelled')
+            items = x.items
             a = tuple(self.leaf_arg(n, t) for t in items)
             if any(k != 'avar' for k, _ in a):
                 self.err(n, 'network applied to a non-leaf')
